@@ -12,9 +12,11 @@ import (
 	"fmt"
 	"io/ioutil"
 	"reflect"
+	"runtime"
 	"sort"
 	"strconv"
 	"strings"
+	"sync"
 	"time"
 )
 
@@ -361,6 +363,137 @@ func verifRunThreads(raceMsg, stuckMsg string) {
 		}
 	}
 }
+
+// ---------------------------------------------------------------- schedules (interleaved mode)
+
+// verifRunSchedules runs the spawned threads to completion and returns. Symbolically every interleaving with at most
+// `preempts` preemptions at lock acquisitions is a path. Natively the threads are goroutines; when the case carries a
+// "__schedule" input (thread index per lock acquisition, in order) and the package's locks have been replaced by the
+// wrappers below (the replay driver does that in the overlaid copies of the sources), that order is enforced.
+func verifRunSchedules(preempts int, stuckMsg string) {
+	ths := verifThreads
+	verifThreads = nil
+	s := &verifSched
+	s.mu.Lock()
+	s.order, s.cursor, s.tids, s.active = nil, 0, map[int64]int{}, false
+	if s.cond == nil {
+		s.cond = sync.NewCond(&s.mu)
+	}
+	if v, ok := verifCur.Inputs["__schedule"].(string); ok && v != "" {
+		for _, f := range strings.Split(v, ",") {
+			n, _ := strconv.Atoi(f)
+			s.order = append(s.order, n)
+		}
+		s.active = true
+	}
+	s.mu.Unlock()
+	done := make(chan interface{}, len(ths))
+	start := make(chan struct{})
+	for i, f := range ths {
+		i, f := i, f
+		go func() {
+			defer func() { done <- recover() }()
+			s.mu.Lock()
+			s.tids[verifGID()] = i
+			s.mu.Unlock()
+			<-start
+			f()
+		}()
+	}
+	close(start)
+	release := func() {
+		s.mu.Lock()
+		s.active = false
+		s.cond.Broadcast()
+		s.mu.Unlock()
+	}
+	var panicked interface{}
+	timeout := time.After(500 * time.Millisecond)
+	final := time.After(1500 * time.Millisecond)
+	for n := 0; n < len(ths); {
+		select {
+		case x := <-done:
+			n++
+			if x != nil {
+				panicked = x
+			}
+		case <-timeout:
+			release() // the order could not be followed (the code no longer takes these locks): run freely
+		case <-final:
+			release()
+			if stuckMsg != "" {
+				verifCur.Failures = append(verifCur.Failures, stuckMsg)
+			}
+			panic(verifStop{"stuck"})
+		}
+	}
+	release()
+	if panicked != nil {
+		panic(panicked) // a panic in a goroutine takes the process down
+	}
+}
+
+type verifSchedT struct {
+	mu     sync.Mutex
+	cond   *sync.Cond
+	order  []int
+	cursor int
+	tids   map[int64]int
+	active bool
+}
+
+var verifSched verifSchedT
+
+func verifGID() int64 {
+	var buf [64]byte
+	n := runtime.Stack(buf[:], false)
+	f := strings.Fields(string(buf[:n]))
+	if len(f) < 2 {
+		return -1
+	}
+	id, _ := strconv.ParseInt(f[1], 10, 64)
+	return id
+}
+
+// verifSchedAcquire performs a lock acquisition at its place in the enforced order.
+func verifSchedAcquire(do func()) {
+	s := &verifSched
+	s.mu.Lock()
+	tid, known := -1, false
+	if s.active {
+		tid, known = s.tids[verifGID()]
+	}
+	if !known {
+		s.mu.Unlock()
+		do()
+		return
+	}
+	for s.active && s.cursor < len(s.order) && s.order[s.cursor] != tid {
+		s.cond.Wait()
+	}
+	mine := s.active && s.cursor < len(s.order)
+	s.mu.Unlock()
+	do()
+	if mine {
+		s.mu.Lock()
+		s.cursor++
+		s.cond.Broadcast()
+		s.mu.Unlock()
+	}
+}
+
+// verifRWMutex / verifMutex stand in for sync.RWMutex / sync.Mutex in the instrumented copies of the sources.
+type verifRWMutex struct{ m sync.RWMutex }
+
+func (l *verifRWMutex) Lock()    { verifSchedAcquire(l.m.Lock) }
+func (l *verifRWMutex) RLock()   { verifSchedAcquire(l.m.RLock) }
+func (l *verifRWMutex) Unlock()  { l.m.Unlock() }
+func (l *verifRWMutex) RUnlock() { l.m.RUnlock() }
+
+type verifMutex struct{ m sync.Mutex }
+
+func (l *verifMutex) Lock()   { verifSchedAcquire(l.m.Lock) }
+func (l *verifMutex) Unlock() { l.m.Unlock() }
 
 // nondetFixed: a nondeterministic string of exactly n bytes.
 func nondetFixed(name string, n int) string { return nondetString(name, n) }
